@@ -84,7 +84,17 @@ func c05run(line string) (string, []string) {
 		return c05cluster(t.u(), t.n(), t.n() == 1)
 	}
 	k := t.n()
-	es := t.ents()
+	var es []Ent
+	if op == "optreg" { // optreg <target> <n> <gap> <len>: a regular list given by its parameters
+		n, gap, l := t.n(), t.u(), uint32(t.n())
+		es = make([]Ent, n)
+		for i := range es {
+			es[i] = Ent{ID: uint64(i) * gap, Off: uint64(i) * uint64(l), Len: l, Run: 1}
+		}
+		op = "optdir"
+	} else {
+		es = t.ents()
+	}
 	gzipped := op == "buildrl_gz" || op == "optdir_gz"
 	comp := pmtiles.Compression(pmtiles.NoCompression)
 	if gzipped {
@@ -240,6 +250,20 @@ func c05(r *rng, tier string, o *out) {
 			emit(fmt.Sprintf("optdir_gz %d %s", 16257, entsStr(es)), n > 4096, "optdir_gz")
 			if n > 100 {
 				emit(fmt.Sprintf("optdir_gz %d %s", 200, entsStr(es)), n > 4096, "optdir_gz")
+			}
+		}
+	}
+	// (b2) regular lists whose pointer tile-ID deltas (gap x leaf size) sit just below a varint size boundary at the first leaf size,
+	// so that a larger leaf makes every pointer a byte longer; one entry more than a whole number of leaves; budgets the first
+	// attempt just misses
+	gaps := []uint64{3, 4, 31, 32, 127, 500, 511, 512, 513}
+	for gi, gap := range gaps {
+		for _, target := range []int{120, 170} {
+			for leaves := target/10 - 1; leaves <= target/6+1; leaves += 2 {
+				if tier != "thorough" && (leaves+gi)%3 != 0 {
+					continue
+				}
+				emit(fmt.Sprintf("optreg %d %d %d %d", target, 4096*leaves+1, gap, 20+gi), true, "optdir_varint_boundary")
 			}
 		}
 	}
